@@ -67,6 +67,12 @@ fn gen(rng: &mut Rng, tier: Tier) -> Vec<Case> {
         if qs.is_empty() { qs.push((0, 5)); qs.push((3, 4)); }
         out.push(Case::new("boundary", enc(&C { h, qs })));
     }
+    if tier == Tier::Thorough {
+        // exhaustive small scope: all sequences of <= 3 intervals over 0..=3 (zero-length included, no merge),
+        // and of <= 3 non-empty intervals with merges, every query over 0..=5
+        for h in exhaustive_hists(3, 3, true, false) { out.push(Case::new("exhaustive", enc(&C { h, qs: all_queries(3) }))); }
+        for h in exhaustive_hists(3, 3, false, true) { out.push(Case::new("exhaustive", enc(&C { h, qs: all_queries(3) }))); }
+    }
     for _ in 0..nr {
         let n = rng.range(2, 150) as usize;
         let base = match rng.below(4) { 0 => u64::MAX - 100_000, 1 => rng.below(1 << 45), _ => 0 };
